@@ -239,8 +239,37 @@ pub fn run(ctx: &Ctx, st: &mut Stats, round: bool) {
         };
         let a = mk(rng);
         let b = if rng.chance(1, 2) { mk(rng) } else { one(round, u, ty, (a.n + rng.range_i64(-40, 40)).clamp(MIN_DAY as i64, MAX_DAY as i64), a.tod) };
-        for c in [a, b, a] {
-            st.eval_h(mix(mix(c.n as u64, c.tod as u64), mix(i as u64, u as u64)), &c, check);
+        let h = mix(mix(mix(a.n as u64, a.tod as u64), mix(b.n as u64, b.tod as u64)), mix(ty as u64, u as u64));
+        st.eval_hist(h, vec![a, b, a], check);
+        let _ = i;
+    });
+    // a date next to a period boundary, then one nearby (other side of the boundary, inside the period, next period), alternating
+    let ystep = ctx.tier.pick(997, ctx.q(7, 1), 1);
+    ctx.par(st, "history: boundary-region date, nearby date, alternating (every year x all units)", false, 0, (9999 + ystep - 1) / ystep, |st, i, rng| {
+        let y = 1 + i * ystep;
+        for u in UNITS {
+            for v in 0..6 {
+                let a = match v {
+                    0 => crate::cal::days_from_civil(y, 12, 28) + rng.range_i64(0, 3),
+                    1 => crate::cal::days_from_civil(y, 1, 1) + rng.range_i64(0, 4),
+                    2 | 3 => crate::cal::days_from_civil(y, 1 + rng.below(12) as i64, 1) + rng.range_i64(-3, 3),
+                    4 => crate::cal::days_from_civil(y, 1 + rng.below(12) as i64, 14) + rng.range_i64(0, 3),
+                    _ => crate::cal::days_from_civil(y, 1, 1) + rng.range_i64(0, 364),
+                };
+                let b = a + if rng.chance(1, 2) { rng.range_i64(-45, 45) } else { rng.range_i64(-400, 400) };
+                if !(MIN_DAY as i64..=MAX_DAY as i64).contains(&a) || !(MIN_DAY as i64..=MAX_DAY as i64).contains(&b) {
+                    continue;
+                }
+                let ty = [TyK::Date, TyK::Ts, TyK::Ora][((i + v) % 3) as usize];
+                let (ta, tb) = match ty {
+                    TyK::Date => (0, 0),
+                    TyK::Ts => (rng.range_i64(0, DAY_US - 1), rng.range_i64(0, DAY_US - 1)),
+                    TyK::Ora => (rng.range_i64(0, 86_399) * 1_000_000, rng.range_i64(0, 86_399) * 1_000_000),
+                };
+                let (ca, cb) = (one(round, u, ty, a, ta), one(round, u, ty, b, tb));
+                let h = mix(mix(a as u64, b as u64), mix(mix(ta as u64, tb as u64), u as u64 * 4 + ty as u64));
+                st.eval_hist(h, vec![ca, cb, ca, cb], check);
+            }
         }
     });
     cold_threads(st, "history: first call on a fresh thread", {
